@@ -112,7 +112,8 @@ func ExtractValue(v reflect.Value, extractor ValueExtractor) {
 	// type, which is walked with a zero value so that the types behind it are found as well
 	for v.Kind() == reflect.Ptr || v.Kind() == reflect.Interface {
 		if v.IsNil() {
-			if v.Kind() == reflect.Interface {
+			if v.Kind() == reflect.Interface || v.Type().Elem() == v.Type() {
+				// nothing behind a nil interface, nor behind a pointer type that points to itself (type P *P)
 				return
 			}
 			v = reflect.New(v.Type().Elem()).Elem()
@@ -238,6 +239,10 @@ func RawValue(v reflect.Value) reflect.Value {
 //UnpackPtrType unpack pointer type to original type
 func UnpackPtrType(typ reflect.Type) reflect.Type {
 	for typ.Kind() == reflect.Ptr {
+		if typ.Elem() == typ {
+			// type P *P points to itself: there is nothing behind it
+			return typ
+		}
 		typ = typ.Elem()
 	}
 	return typ
